@@ -1169,6 +1169,7 @@ class Engine(object):
         return str(r)
 
     solve_inline = False
+    second_opinion = False
 
     def discharge(self, vc, axioms, ctx):
         if vc.pre is not None:
@@ -1187,7 +1188,14 @@ class Engine(object):
         r = s.check()
         ms = round((time.time() - t0) * 1000, 1)
         if r == z3.unsat:
-            return {"verdict": "proved", "backend": "z3", "ms": ms}
+            out = {"verdict": "proved", "backend": "z3", "ms": ms}
+            if self.second_opinion:
+                # thorough tier: every obligation z3 proves is handed to cvc5 as an independent second opinion
+                v2 = run_cvc5(s.to_smt2(), min(self.timeout_ms, 20000))
+                out["cvc5"] = v2
+                if v2 == "sat":
+                    out["verdict"] = "disagreement"
+            return out
         if r == z3.sat:
             m = s.model()
             # refine the counter-model: within a small length bound the ghost counters are given their exact
